@@ -52,31 +52,31 @@ type tcProfile struct {
 }
 
 type depEvent struct {
-	Seq                uint64
-	From, To           string
-	L1Denom, L2Denom   string
-	Amount             *big.Int
-	Data               []byte
-	L1Height           int64
+	Seq              uint64
+	From, To         string
+	L1Denom, L2Denom string
+	Amount           *big.Int
+	Data             []byte
+	L1Height         int64
 }
 
 type wdEvent struct {
-	Seq                 uint64
-	From, To            string
-	Denom, BaseDenom    string
-	Amount              *big.Int
-	L2Height            int64
-	Claimable           bool // positive amount, valid L1 recipient, amount representable
+	Seq              uint64
+	From, To         string
+	Denom, BaseDenom string
+	Amount           *big.Int
+	L2Height         int64
+	Claimable        bool // positive amount, valid L1 recipient, amount representable
 }
 
 type netMsg struct {
-	Call     int64 // history stamp of the invocation
-	Chain    int // 1 or 2
-	Msgs     []sdk.Msg
-	Kind     string
-	Desc     string
-	At       time.Time // delivery time (sim clock)
-	From     string    // actor name (for partitions)
+	Call  int64 // history stamp of the invocation
+	Chain int   // 1 or 2
+	Msgs  []sdk.Msg
+	Kind  string
+	Desc  string
+	At    time.Time // delivery time (sim clock)
+	From  string    // actor name (for partitions)
 }
 
 type memTx struct {
@@ -102,29 +102,29 @@ type tcOutput struct {
 }
 
 type twoChain struct {
-	r    *core.Run
-	p    *tcProfile
-	L1   *l1World
-	L2   *l2World
-	bridge uint64
+	r                    *core.Run
+	p                    *tcProfile
+	L1                   *l1World
+	L2                   *l2World
+	bridge               uint64
 	proposer, challenger string
 
-	deps []depEvent // by sequence-1
-	wds  []wdEvent  // by l2 sequence-1
+	deps  []depEvent          // by sequence-1
+	wds   []wdEvent           // by l2 sequence-1
 	third map[string]*big.Int // third-party sends into the escrow per L1 denom
 
-	execs    []*execActor
-	inflight []netMsg
+	execs      []*execActor
+	inflight   []netMsg
 	mem1, mem2 []memTx
-	simNow   time.Time
-	outputs  map[uint64]*tcOutput // accepted, not deleted
-	proposed map[prover.Hash]*tcOutput // by root, awaiting acceptance
-	claimSent map[int]int // withdrawal index -> claims sent
-	initialL1 map[string]*big.Int // total L1 supply per denom
-	draining bool
-	finPeriod time.Duration
-	evSeq    int64    // global event sequence number (history stamps)
-	hist     []histOp // client-visible history of relay and claim transactions
+	simNow     time.Time
+	outputs    map[uint64]*tcOutput      // accepted, not deleted
+	proposed   map[prover.Hash]*tcOutput // by root, awaiting acceptance
+	claimSent  map[int]int               // withdrawal index -> claims sent
+	initialL1  map[string]*big.Int       // total L1 supply per denom
+	draining   bool
+	finPeriod  time.Duration
+	evSeq      int64    // global event sequence number (history stamps)
+	hist       []histOp // client-visible history of relay and claim transactions
 }
 
 func (tc *twoChain) fail(owners []string, inv, key, format string, a ...interface{}) *core.Violation {
